@@ -13,6 +13,7 @@ only = set(sys.argv[3:])
 WT = f"/tmp/seedcheck{wave}/wt"
 ENV = dict(os.environ, CARGO_NET_OFFLINE="true", CARGO_TARGET_DIR=f"/tmp/seedcheck{wave}/target")
 SOURCE = {
+    8: "independent sub-agent (20-minute budget) given only the property record, the list of everything the tester is known to vary after seven waves, and a scratch worktree of /repo; asked what is NOT in that list",
     7: "independent sub-agent given only the property record, the list of everything the tester is known to vary after six waves (incl. threads, tracing levels, application chatter, objects used between construction steps, odd execution contexts, distinct-name counts), and a scratch worktree of /repo; asked what is NOT in that list",
     6: "independent sub-agent given only the property record, the list of everything the tester is known to vary after five waves (build profiles, second connection, wall clock, error kinds, ...), and a scratch worktree of /repo; asked what is NOT in that list",
     2: "independent sub-agent given only the property record, one-paragraph summaries of the first-wave changes to avoid, and a scratch worktree of /repo; asked for changes a randomized tester is unlikely to hit",
